@@ -206,10 +206,20 @@ def gen_num(g: G, sch: Sch, t: str, depth: int, must_col=False):
                 return ["col", c] if sch.cols[c]["type"] == "int" else None
             return None
         return lit_of(g, t)
-    kinds = ["arith", "arith", "neg", "abs", "if_else", "maxmin"]
+    kinds = ["arith", "arith", "neg", "abs", "if_else", "maxmin", "nonassoc"]
     if t == "float":
         kinds += ["div", "coalesce", "floorceil", "mixed"]
     k = g.pick(kinds)
+    if k == "nonassoc":
+        # the same non-associative operator nested as its own RIGHT operand: a - (b - c), a / (4.0 / 0.5)
+        a = gen_num(g, sch, t, depth - 1, must_col=must_col)
+        if a is None:
+            return None
+        if t == "float" and g.boolean():
+            return ["call", "/", [a, ["call", "/", [["lit", g.pick([4.0, 2.0, 1.0])], ["lit", g.pick([0.5, 2.0, 4.0])]]]]]
+        b = gen_num(g, sch, t, max(depth - 1, 0)) or lit_of(g, t)
+        c = lit_of(g, t) if g.boolean() else (gen_num(g, sch, t, 0) or lit_of(g, t))
+        return ["call", "-", [a, ["call", "-", [b, c]]]]
     if k == "arith":
         op = g.pick(["+", "-", "*"])
         a = gen_num(g, sch, t, depth - 1, must_col=must_col)
